@@ -106,7 +106,7 @@ def correspondence(ctx):
     # multi-agent sessions on the real coordinator; a monitor compares the world tables with the pristine ones whenever the
     # reset task has reset the game (tagged C08 in coordcommon); the sessions are also followed by the coordinator model
     from props import coordcommon as CC
-    CC.run_sessions(ctx, "C08", 84 if th else 52,
+    CC.run_sessions(ctx, "C08", 86 if th else 54,
                     lambda r: dict(n_events=r.choice([50, 80]), burst=0.15, fault=0.06, bad=0.02, resets=0.3),
                     lambda r: dict(required=r.choice([1, 2, 2, 3]), max_steps=r.choice([2, 3, 6])))
     sess_cov = {k: ctx.coverage.get(k) for k in ("sessions", "labels_followed", "response_and_barrier_statistics")}
